@@ -3,6 +3,8 @@
 elementwise maps.  Transfer functions for linspace/min/max/spline as opaque atoms."""
 from __future__ import annotations
 
+import itertools
+
 import sympy as sp
 
 from . import units as U
@@ -306,6 +308,18 @@ def grad(expr):
 
 
 def lib_gradient(ev, a, k, n, mod):
+    axis = k.get("axis")
+    if isinstance(a[0], ArrV) and len(a) == 1:
+        # rows of grid vectors stacked along a leading constant axis: the gradient along the grid axis, row by row
+        x = a[0]
+        nd = x.batch + len(x.shape)
+        if not (x.batch == 1 and x.batch_last and axis is not None and _const_int(axis) % nd == nd - 1):
+            raise ev.err("numpy.gradient of a small array along an axis that is not its grid axis", n, mod)
+        out = ArrV(1, x.shape, batch_last=True)
+        out.cells = {key: grad(as_sym(x.get(key))) for key in itertools.product(*[range(d) for d in x.shape])}
+        return out
+    if axis is not None and _const_int(axis) not in (0, -1):
+        raise ev.err("numpy.gradient of a grid vector along another axis", n, mod)
     if len(a) == 1:
         return grad(as_sym(a[0]))
     if len(a) != 2:
